@@ -360,6 +360,8 @@ impl<'a> World<'a> {
     }
 
     pub fn step(&mut self, e: &Value) -> Obs {
+        crate::watch::context(format!("{} step {}", self.suite.name(), e));
+        let _running = crate::watch::enter();
         tksf::take_log();
         let extfail = getb(e, "extfail");
         extkey::reset(if extfail { self.ext_fail_at } else { 0 });
@@ -627,6 +629,7 @@ impl<'a> World<'a> {
     /// Run a client finish step with the arguments of event `e` but these message bytes
     /// (class concretization sweeps); nothing is interned, no state changes.
     pub fn try_client_finish(&mut self, e: &Value, msg: &[u8]) -> Res {
+        let _running = crate::watch::enter();
         let pw = self.req_arg(geti(e, "pw"));
         let ctx = self.arg(geti(e, "ctx"));
         let idu = self.arg(geti(e, "idu"));
@@ -640,6 +643,7 @@ impl<'a> World<'a> {
         }
     }
     pub fn try_server_finish(&mut self, j: i64, fin: &[u8]) -> Res {
+        let _running = crate::watch::enter();
         let suite = self.suite;
         let st = self.srvs.get(&j).expect("server login state");
         match guard(|| suite.slog_finish(st, fin)) {
